@@ -39,6 +39,7 @@ let parse_op line =
   | ["length"; t; r] -> Some (OLength (zi t, zi r))
   | ["findall"; t; r; d] -> Some (OFindall (zi t, zi r, zi d))
   | ["dump"] -> Some ODump
+  | ["eof"] -> Some ODump            (* does not change M or S; judged separately (eof_line) *)
   | _ -> None
 
 let triple ((t, r), l) = Printf.sprintf "%d/%d/%d" (int_of_z t) (int_of_z r) (int_of_z l)
@@ -61,10 +62,42 @@ let read_lines ic =
   (try while true do r := input_line ic :: !r done with End_of_file -> ());
   List.rev !r
 
+(* "eof => E | off:ndds o+l o+l ... | off:ndds ..." : the library's f_end_off with the layout read from its DD blocks.
+   M = HTPstart's end of file recomputed from that layout (extracted htpstart_end_off);
+   S = "ok" when E covers every DD block and every element (extracted eof_covers), "low" otherwise *)
+let eof_line line =
+  match Str.bounded_split_delim (Str.regexp "=>") line 2 with
+  | [lhs; rhs] when words lhs = ["eof"] ->
+    (match List.map String.trim (String.split_on_char '|' rhs) with
+     | e :: blocks when e <> "fail" ->
+       let blk b =
+         match words b with
+         | hd :: dds ->
+           (match String.split_on_char ':' hd with
+            | [o; n] ->
+              { lb_off = zi o; lb_ndds = zi n;
+                lb_dds = List.map (fun d -> match String.split_on_char '+' d with
+                    | [a; b] -> (zi a, zi b) | _ -> (z_of_int 0, z_of_int 0)) dds }
+            | _ -> { lb_off = z_of_int 0; lb_ndds = z_of_int 0; lb_dds = [] })
+         | [] -> { lb_off = z_of_int 0; lb_ndds = z_of_int 0; lb_dds = [] } in
+       let bl = List.map blk blocks in
+       Some (Printf.sprintf "M %d ; S %s" (int_of_z (htpstart_end_off bl)) (if eof_covers (zi e) bl then "ok" else "low"))
+     | _ -> Some "M fail ; S nodomain")
+  | _ -> None
+
 let run_dd lines =
+  let lines = List.filter (fun l -> parse_op l <> None) lines in
   let ops = List.filter_map parse_op lines in
   let ms = m_run m_empty ops and ss = s_run [] ops in
-  List.iter2 (fun m s -> print_string ("M " ^ show m ^ " ; S " ^ show s ^ "\n")) ms ss
+  let rec go ls ms ss =
+    match ls, ms, ss with
+    | l :: ls', m :: ms', s :: ss' ->
+      (match eof_line l with
+       | Some txt -> print_string (txt ^ "\n")
+       | None -> print_string ("M " ^ show m ^ " ; S " ^ show s ^ "\n"));
+      go ls' ms' ss'
+    | _ -> () in
+  go lines ms ss
 
 let run_bv lines =
   let flush_seq nb ops =
